@@ -106,12 +106,82 @@ pub open spec fn solutions_ok(sols: Seq<Solution>) -> bool {
           props=('C16', 'C04', 'C06')))
     so.fn('check_set', F('check_set', ensures='r is Ok <==> solutions_ok(set.solutions@) && mutations_ok(*set)', props=('C16', 'C04')))
     so.item('struct PostState')
+    so.spec('''
+// C03: what a post-state read observes (written from the property statement): for each key of the requested range the value proposed for that
+// contract and key (an empty value meaning deletion, returned as is), otherwise the pre-state value; the range ends early when the key space is exhausted.
+// T-std: Vec<i64> (Key / Value) is determined by its contents - needed to speak about "the entry for these key words" of a HashMap<Key, Value>.
+pub open spec fn same_words(a: Vec<i64>, b: Vec<i64>) -> bool { a@ == b@ }
+pub broadcast axiom fn axiom_vec_i64_ext(a: Vec<i64>, b: Vec<i64>) ensures #[trigger] same_words(a, b) ==> a == b;
+pub open spec fn proposed(cs: Map<Key, Value>, k: Seq<i64>) -> Option<Seq<i64>> {
+    if exists|kk: Key| kk@ == k && cs.contains_key(kk) { Some(cs[choose|kk: Key| kk@ == k && cs.contains_key(kk)]@) } else { None } }
+pub open spec fn overlay_val<S: StateRead>(cs: Map<Key, Value>, state: &S, c: ContentAddress, k: Seq<i64>) -> Result<Seq<i64>, S::Error> {
+    match proposed(cs, k) {
+        Some(v) => Ok(v),
+        None => match state.spec_key_range(c, k, 1) { Ok(vs) => Ok(if vs.len() > 0 { vs.last() } else { Seq::empty() }), Err(e) => Err(e) } } }
+pub open spec fn overlay_read<S: StateRead>(cs: Map<Key, Value>, state: &S, c: ContentAddress, k: Seq<i64>, n: nat) -> Result<Seq<Seq<i64>>, S::Error>
+    decreases n
+{
+    if n == 0 { Ok(Seq::empty()) } else { match overlay_val(cs, state, c, k) {
+        Err(e) => Err(e),
+        Ok(v) => match crate::next_key_spec(k) {
+            None => Ok(seq![v]),
+            Some(k2) => match overlay_read(cs, state, c, k2, (n - 1) as nat) { Ok(vs) => Ok(seq![v] + vs), Err(e) => Err(e) } } } } }
+pub open spec fn prepend<E>(p: Seq<Seq<i64>>, r: Result<Seq<Seq<i64>>, E>) -> Result<Seq<Seq<i64>>, E> { match r { Ok(vs) => Ok(p + vs), Err(e) => Err(e) } }
+pub proof fn lemma_overlay_step<S: StateRead>(cs: Map<Key, Value>, state: &S, c: ContentAddress, k: Seq<i64>, n: nat)
+    requires n > 0
+    ensures overlay_read(cs, state, c, k, n) == (match overlay_val(cs, state, c, k) {
+        Err(e) => Err::<Seq<Seq<i64>>, S::Error>(e),
+        Ok(v) => match crate::next_key_spec(k) { None => Ok(seq![v]), Some(k2) => prepend(seq![v], overlay_read(cs, state, c, k2, (n - 1) as nat)) } })
+{ }
+pub proof fn lemma_proposed(cs: Map<Key, Value>, key: Key)
+    ensures cs.contains_key(key) ==> proposed(cs, key@) == Some(cs[key]@), !cs.contains_key(key) ==> proposed(cs, key@) is None
+{
+    broadcast use axiom_vec_i64_ext;
+    assert forall|kk: Key| kk@ == key@ implies kk == key by { assert(same_words(kk, key)); }
+}
+''')
     so.fn('read_or_fallback', F('read_or_fallback', ensures="""
             // contract without proposed mutations: exactly the pre-state read
             !post.state@.contains_key(contract_addr) ==> match state.spec_key_range(contract_addr, key@, num_values) {
                 Ok(vs) => r is Ok && r->Ok_0.deep_view() == vs, Err(e) => r == Err::<Vec<Vec<Word>>, S::Error>(e) },
+            // contract with proposed mutations: per-key overlay of the proposed values on the pre-state
+            post.state@.contains_key(contract_addr) ==> match overlay_read(post.state@[contract_addr]@, state, contract_addr, key@, num_values as nat) {
+                Ok(vs) => r is Ok && r->Ok_0.deep_view() =~= vs, Err(e) => r == Err::<Vec<Vec<Word>>, S::Error>(e) },
             post.state@.contains_key(contract_addr) && r is Ok ==> r->Ok_0@.len() <= num_values""",
-        loops={0: {'iter_name': 'itr', 'invariant': 'out@.len() == itr.index@, itr.index@ <= num_values, post.state@.contains_key(contract_addr)'}},
+        hints=[('let mut value = state.key_range(', 'before', '''lemma_proposed(contract_state@, key);
+                    lemma_overlay_step::<S>(contract_state@, state, contract_addr, key@, (num_values - itr.index@) as nat);
+                    assert(proposed(contract_state@, key@) is None);
+                    match state.spec_key_range(contract_addr, key@, 1) {
+                        Err(e) => { assert(overlay_val(contract_state@, state, contract_addr, key@) == Err::<Seq<i64>, S::Error>(e));
+                            assert(overlay_read(contract_state@, state, contract_addr, key@, (num_values - itr.index@) as nat) == Err::<Seq<Seq<i64>>, S::Error>(e));
+                            assert(overlay_read(contract_state@, state, contract_addr, key0, num_values as nat) == Err::<Seq<Seq<i64>>, S::Error>(e)); },
+                        Ok(_) => {} }'''),
+               ('match next_key(key)', 'before', '''lemma_proposed(contract_state@, key);
+                    lemma_overlay_step::<S>(contract_state@, state, contract_addr, key@, (num_values - itr.index@) as nat);
+                    if contract_state@.contains_key(key) { assert(out@.last()@ == contract_state@[key]@); assert(overlay_val(contract_state@, state, contract_addr, key@) == Ok::<Seq<i64>, S::Error>(out@.last()@)); }
+                    else { assert(state.spec_key_range(contract_addr, key@, 1) is Ok);
+                           let vs = state.spec_key_range(contract_addr, key@, 1)->Ok_0;
+                           assert(out@.last()@ == (if vs.len() > 0 { vs.last() } else { Seq::<i64>::empty() }));
+                           assert(overlay_val(contract_state@, state, contract_addr, key@) == Ok::<Seq<i64>, S::Error>(out@.last()@)); }
+                    assert(out.deep_view().drop_last() =~= old_out_dv);
+                    assert(out.deep_view().last() == out@.last()@);
+                    let v = out@.last()@;
+                    assert(out.deep_view() =~= old_out_dv.push(v));
+                    let rest_n = (num_values - itr.index@ - 1) as nat;
+                    match crate::next_key_spec(key@) {
+                        None => { assert(old_out_dv + seq![v] =~= out.deep_view()); },
+                        Some(k2) => { match overlay_read(contract_state@, state, contract_addr, k2, rest_n) {
+                            Ok(vs) => { assert(old_out_dv + (seq![v] + vs) =~= out.deep_view() + vs); }, Err(_) => {} }
+                            assert(overlay_read(contract_state@, state, contract_addr, key0, num_values as nat)
+                                == prepend(out.deep_view(), overlay_read(contract_state@, state, contract_addr, k2, rest_n))); } }'''),
+               ('match contract_state.get(&key)', 'before', 'let ghost old_out_dv = out.deep_view();', 'ghost')],
+        head_ghost='let ghost key0 = key@;', attrs=['#[verifier::loop_isolation(false)]'],
+        loops={0: {'iter_name': 'itr', 'invariant': 'post.state@.contains_key(contract_addr), *contract_state == post.state@[contract_addr]',
+                   'invariant_except_break': '''out@.len() == itr.index@, itr.index@ <= num_values,
+                    overlay_read(contract_state@, state, contract_addr, key0, num_values as nat)
+                        == prepend(out.deep_view(), overlay_read(contract_state@, state, contract_addr, key@, (num_values - itr.index@) as nat))''',
+                   'ensures': '''out@.len() <= num_values,
+                    overlay_read(contract_state@, state, contract_addr, key0, num_values as nat) == Ok::<Seq<Seq<i64>>, S::Error>(out.deep_view())'''}},
         props=('C03', 'C06')))
 
     for e in ('enum PredicatesError', 'struct PredicateErrors', 'enum PredicateError', 'struct ProgramErrors', 'enum ProgramError',
